@@ -509,6 +509,15 @@ def run(ctx):
     ctx.extra['kernel_cases'] = len(items)
 
 
+
+_run_main = run
+
+
+def run(ctx):   # noqa: F811
+    _run_main(ctx)
+    from harness import c12_extra
+    c12_extra.run(ctx)
+
 def replay(path):
     d = json.load(open(path))
     rep = d.get('replay', {})
